@@ -76,6 +76,11 @@ pub fn check_one(cache: &RefCache, mg: &MoveGenerator, rep: &Report, b: &Board, 
     let fen = eng::fen_of(b);
     let args = vec!["c05-one".to_string(), "--fen".into(), fen.clone(), "--depth".into(), k.to_string(), "--mode".into(), if fixed { "fixed".into() } else { "id".into() }];
     crate::timer::verif::set_node_clock(Some(1));
+    let _job = crate::watch::enter(
+        format!("C05 fen={} depth={} no-answer", fen, k),
+        format!("fresh engine, search of {:?} to depth {}: no answer after {} s of wall time", fen, k, crate::watch::LIMIT_S),
+        args.clone(),
+    );
     let r = guard(|| {
         let mut s = Searcher::new();
         crate::search::verif::reset_tt_cutoffs();
@@ -116,6 +121,7 @@ pub fn run(tier: &str, seed: u64, out: &str) {
         eprintln!("MACHINERY ERROR: {}", e);
         std::process::exit(2);
     }
+    crate::watch::start_default("C05", "model_checking", tier, seed, out);
     let mg = MoveGenerator::new();
     let cache = RefCache::new(if thorough { 200_000 } else { 50_000 });
     let mut per_root = Vec::new();
